@@ -177,93 +177,254 @@ def r2(ctx):
               c.loc(fn, lp), "every returning path of update() re-couples the groups",
               "Feedback::update can return without walking self.coupled (when %s): after such a step the unrolled copies of a layer hold different parameters"
               % "; ".join(("" if b_ else "not ") + e6.show(t_, 2) for t_, b_ in (skipping[0].pc if skipping else ()))[:200])
-    opt = [i for i, s in enumerate(st) if any(x.get("k") == "mcall" and x["callee"] == "optimizer::Optimizer::update" for x in walk(s))]
-    ctx.check("R10.2", "after-optimizer-steps", bool(opt) and max(opt) < st.index(lp), "coupling-before-optimizer", c.loc(fn, lp), "re-coupling follows the per-copy optimizer calls")
-    outs = e4.outcomes(c, lp["body"], lambda n: False)
-    ctx.check("R10.2", "no-early-exit-from-groups", all(k == e4.FALL for (k, _) in outs), "group-loop-exit:" + ",".join(sorted({str(k[0]) for (k, _) in outs})), c.loc(fn, lp), "every group is processed")
-    ch = pat_binds(lp["pat"])[0][1]
-    body = top_stmts_of(lp["body"])
-    inner = [s for s in body if s.get("k") == "for" and e4.local_hid(chain_of(s["iter"])[1]) == ch]
-    if len(inner) != 2:
-        raise Unestablished("coupling: expected a gather loop and a write-back loop over the group, found %d" % len(inner), c.loc(fn, lp))
-    gather, write = inner
-    for nm, l in (("gather", gather), ("write-back", write)):
-        ns, _ = chain_of(l["iter"])
-        ctx.check("R10.2", nm + ":every-member", ns in (["iter"], []), "%s-walk:%s" % (nm, ".".join(ns)), c.loc(fn, l), "for idx in couple.iter()",
-                  "the %s loop walks the group with `%s`: some unrolled copies would not be %s" % (nm, ".".join(ns), "combined" if nm == "gather" else "overwritten with the tied value"))
-    gm = [x for x in walk(gather["body"]) if x.get("k") == "match"]
-    wm = [x for x in walk(write["body"]) if x.get("k") == "match"]
-    if not gm or not wm:
-        raise Unestablished("coupling loops do not match on the layer kind", c.loc(fn, lp))
-    gi, wi = pat_binds(gather["pat"])[0][1], pat_binds(write["pat"])[0][1]
-    def scr_ok(m, ih):
-        s_ = strip(m["scrut"])
-        return s_.get("k") == "index" and "self.layers" in pretty(s_["b"]) and e4.local_hid(s_["i"]) == ih
-    ctx.check("R10.2", "gather:indexes-member", scr_ok(gm[0], gi), "gather-scrutinee", c.loc(fn, gm[0]), "match &self.layers[*idx]")
-    ctx.check("R10.2", "write-back:indexes-member", scr_ok(wm[0], wi), "write-back-scrutinee", c.loc(fn, wm[0]), "match &mut self.layers[*i]")
-    gathered, written = {}, {}
-    for arm in gm[0]["arms"]:
-        vp, b = e4.arm_variant(arm)
-        if vp.startswith("network::Layer::") and b:
-            gathered[vp.split("::")[-1]] = variant_fields_read(c, arm, b[0][1])
-    wb_arms = {}
-    for arm in wm[0]["arms"]:
-        vp, b = e4.arm_variant(arm)
-        if vp.startswith("network::Layer::") and b:
-            written[vp.split("::")[-1]] = variant_fields_written(c, arm, b[0][1])
-            wb_arms[vp.split("::")[-1]] = (arm, b[0][1])
-    for kind, fields in PARAM_FIELDS.items():
-        g = gathered.get(kind, set())
-        w = written.get(kind, set())
-        ctx.check("R10.2", "gathered:" + kind, g == set(fields), "gathered-fields:%s:%s" % (kind, ",".join(sorted(g))), c.loc(fn, gather), "%s: %s gathered" % (kind, fields))
-        ctx.check("R10.2", "written-back:" + kind, w == set(fields), "written-fields:%s:%s" % (kind, ",".join(sorted(w))), c.loc(fn, write), "%s: %s written back" % (kind, fields),
-                  "after the update the %s copies of a group get %s written back, but %s were combined: the unrolled copies drift apart" % (kind, sorted(w) or "nothing", fields))
-        if kind in wb_arms:
-            arm, lh = wb_arms[kind]
-            dep = [x for x in walk(arm["body"]) if x.get("k") == "assign" and mentions_local(x["r"], wi)]
-            from ..hir import let_table, cpretty
-            TT_ = let_table(fn["body"])
-            rhs = [cpretty(strip(x["r"]), TT_) for x in walk(arm["body"]) if x.get("k") == "assign"]
-            ok = not dep and all(r.startswith(("weight.", "bias.")) for r in rhs)
-            ctx.check("R10.2", "uniform-value:" + kind, ok, "written-value:%s:%s" % (kind, ";".join(rhs)[:60]), c.loc(fn, arm["body"]), "every member receives the same combined value (%s)" % "; ".join(rhs))
-    # write-back must come after the accumulation
-    ms = acc_matches(lp["body"])
-    if len(ms) != 1:
-        raise Unestablished("expected one accumulation dispatch in the coupling loop", c.loc(fn, lp))
-    idx = {id(s): i for i, s in enumerate(body)}
-    mi = [i for i, s in enumerate(body) if any(y is ms[0] for y in walk(s))]
-    ctx.check("R10.2", "order", mi and body.index(gather) < mi[0] < body.index(write), "coupling-order", c.loc(fn, lp), "gather, combine, write back")
-    # the combined value starts from the first member and folds the rest
-    t = pretty(lp["body"])
-    ctx.check("R10.2", "starts-from-first-member", "let weight = weights.remove(0)" in t and "biases.remove(0)" in t, "accumulator-start", c.loc(fn, lp), "weight = weights.remove(0)")
-    # R10.3
-    check_acc_dispatch(ctx, "R10.3", fn, ms[0], "coupling", allow_unimplemented=("Overwrite",), mean_div_ok=lambda b: True)  # divisor checked below (count)
-    scr = strip(ms[0]["scrut"])
-    ctx.check("R10.3", "dispatch-on-accumulation", scr.get("k") == "field" and scr["f"] == "accumulation", "dispatch-field:" + pretty(scr), c.loc(fn, ms[0]), "match self.accumulation")
-    # both weights and biases are combined in every arm; Mean divides by count
-    for arm in ms[0]["arms"]:
-        vp, _ = e4.arm_variant(arm)
-        v = vp.split("::")[-1]
-        if v == "Overwrite":
+    coupling_e6(ctx, fn, E, live, c.loc(fn, lp))
+
+
+def coupling_e6(ctx, fn, E, live, where):
+    """R10.2 / R10.3 on the E6 summary of Feedback::update.  After the per-copy optimizer steps, for every group of self.coupled:
+    gather - every member (indexing self.layers by the group's entries) contributes its weights (dense: and its bias if it has one,
+    (de)convolution: its kernels, nested) and is counted once; the combined value starts from the first gathered entry and folds the remaining
+    ones with the primitive of self.accumulation (Mean: add, then divide by the count), for the weights and - when there are any - the
+    biases; write back - every member receives that same combined value in the fields that were gathered."""
+    from .. import e6
+    c = ctx.crate
+    P = live[0]
+
+    def selfish(t):
+        return e6.unself(t)
+    SELF = ("p", "self")
+    LAYERS = ("field", SELF, "layers")
+    ACCF = ("field", SELF, "accumulation")
+
+    def paths_of(e):
+        return [e6.Path({}, pc=x[0], eff=x[1], exit=x[2], val=x[3]) for x in e[3]]
+
+    def has_opt(e):
+        return bool(e6.find_terms(e[3], lambda t: t[0] == "mut" and len(t) > 1 and t[1] == "optimizer::Optimizer::update")) or "optimizer::Optimizer::update" in repr(e[3])
+    top_loops = [(k, e) for k, e in enumerate(P.eff) if e[0] == "loop"]
+    cpl = [(k, e) for (k, e) in top_loops if selfish(e[2]) == ("field", SELF, "coupled")]
+    opt = [k for (k, e) in top_loops if has_opt(e)]
+    ctx.check("R10.2", "after-optimizer-steps", len(cpl) == 1 and bool(opt) and max(opt) < cpl[0][0], "coupling-before-optimizer", where, "re-coupling follows the per-copy optimizer calls")
+    if len(cpl) != 1:
+        raise Unestablished("update: expected one loop over self.coupled", where)
+    CL = cpl[0][1]
+    COUPLE = ("elem", CL[2], CL[1])
+    ys = paths_of(CL)
+    exits = sorted({str(y.exit[0]) for y in ys if y.exit is not None and y.exit[0] != "panic"})
+    ctx.check("R10.2", "no-early-exit-from-groups", not exits, "group-loop-exit:" + ",".join(exits), where, "every group is processed")
+    PRIM = {"Add": "add_inplace", "Subtract": "sub_inplace", "Multiply": "mul_inplace", "Mean": "add_inplace"}
+    res = {}
+
+    def note(key, ok, detail=""):
+        res.setdefault(key, []).append((bool(ok), detail))
+    seen_v = {}
+    for y in ys:
+        if y.exit is not None:
             continue
-        recvs = sorted({pretty(strip(x["recv"])) for x in walk(arm["body"]) if x.get("k") == "mcall" and x["callee"] in INPLACE})
-        # receivers bound from the optional combined bias (`if let Some(b) = &mut bias` / `bias.as_mut()`) are the bias
-        bias_alias = {"bias", "b"}
-        for y in walk(arm["body"]):
-            if y.get("k") == "letx":
-                src_ = strip(y["init"])
-                while src_ is not None and src_.get("k") == "mcall" and src_["name"] in ("as_mut", "as_deref_mut") and not src_["args"]:
-                    src_ = strip(src_["recv"])
-                if src_ is not None and src_.get("k") == "local" and src_["name"] == "bias":
-                    bias_alias |= {n_ for (n_, _) in pat_binds(y["pat"])}
-        ok = any(r == "weight" for r in recvs) and any(r in bias_alias for r in recvs)
-        if v == "Mean":
-            divs = [x for x in walk(arm["body"]) if x.get("k") == "mcall" and x["name"] == "div_scalar_inplace"]
-            ok = ok and len(divs) == 2 and all(pretty(strip(x["args"][0])) == "count" for x in divs) \
-                and sorted(pretty(strip(x["recv"])) in bias_alias for x in divs) == [False, True]
-        ctx.check("R10.3", "weights-and-biases:" + v, ok, "combined-objects:%s:%s" % (v, ",".join(recvs)), c.loc(fn, arm["body"]), "weights and biases both combined")
-    cnt = [x for x in walk(gather["body"]) if x.get("k") == "assignop" and pretty(strip(x["l"])) == "count"]
-    ctx.check("R10.3", "count-per-member", len(cnt) == 1 and e4.lit_value(cnt[0]["r"]) == "1.0", "count-update", c.loc(fn, gather), "count += 1.0 per gathered member")
+        V = None
+        for (t, pol) in y.pc:
+            if pol and isinstance(t, tuple) and t[0] == "is" and selfish(t[1]) == ACCF:
+                V = t[2].split("::")[-1]
+        if V is None:
+            note("dispatch", False, "a group is combined without consulting self.accumulation")
+            continue
+        note("dispatch", True)
+        effs = list(y.eff)
+        member_loops = [(k, e) for k, e in enumerate(effs) if e[0] == "loop" and selfish(e[2]) == selfish(COUPLE)]
+        partial = [(k, e) for k, e in enumerate(effs) if e[0] == "loop" and e6.contains(selfish(e[2]), selfish(COUPLE)) and selfish(e[2]) != selfish(COUPLE)]
+        if len(member_loops) != 2:
+            note("gather-walk", False, "%d loops over the whole group (%d over a part of it)" % (len(member_loops), len(partial)))
+            note("write-walk", False, "%d loops over the whole group (%d over a part of it)" % (len(member_loops), len(partial)))
+            continue
+        (kg, G), (kw, W) = member_loops
+        note("gather-walk", True)
+        note("write-walk", True)
+        # ---- gather
+        gel = ("elem", G[2], G[1])
+        WL = BL = CNT = None
+        gathered = {}
+        cnt_ok = True
+        idx_ok = True
+        for z in paths_of(G):
+            if z.exit is not None and z.exit[0] == "panic":
+                continue
+            vs = {selfish(k_): v_ for k_, v_ in e6.variant_of(z).items()}
+            member = ("idx", LAYERS, selfish(gel))
+            member_d = ("idx", LAYERS, ("un", "Deref", selfish(gel)))
+            kind = (vs.get(member) or vs.get(member_d) or "").split("::")[-1]
+            mterm = member if member in vs else member_d
+            pushes = [e for e in z.eff if e[0] == "push"]
+            sets = [e for e in z.eff if e[0] == "set"]
+            if kind in PARAM_FIELDS:
+                pay = ("payload", mterm, "network::Layer::" + kind, 0)
+                got = set()
+                for e in pushes:
+                    v_ = selfish(e[2])
+                    if v_ == ("field", pay, "weights"):
+                        got.add("weights")
+                        WL = e[1][1]
+                    elif v_ == ("payload", ("field", pay, "bias"), "Option::Some", 0):
+                        got.add("bias")
+                        BL = e[1][1]
+                    elif v_ == ("call", "tensor::Tensor::nested", (("field", pay, "kernels"),)):
+                        got.add("kernels")
+                        WL = e[1][1]
+                    else:
+                        got.add("?" + e6.show(v_, 2)[:30])
+                hasb = vs.get(("field", pay, "bias"))
+                key = kind if not (kind == "Dense" and hasb != "Option::Some") else "Dense-nobias"
+                gathered.setdefault(key, set()).update(got)
+                incs = [e for e in sets if isinstance(e[2], tuple) and e[2][0] == "bin" and e[2][1] == "Add" and ("lit", "1.0") in (e[2][2], e[2][3])
+                        and any(isinstance(o_, tuple) and o_[0] == "loopin" and o_[1] == e[1][1] for o_ in (e[2][2], e[2][3]))]
+                cnt_ok = cnt_ok and len(incs) == 1 and len(sets) == 1
+                if incs:
+                    CNT = incs[0][1][1]
+            else:
+                tested = any(isinstance(t, tuple) and t[0] == "is" and selfish(t[1]) in (member, member_d) for (t, pol) in z.pc)
+                if not tested:
+                    idx_ok = False
+                cnt_ok = cnt_ok and not sets and not pushes
+        note("gather-index", idx_ok and bool(gathered), "the gather loop does not dispatch on self.layers[<group entry>]")
+        for kind, fields in PARAM_FIELDS.items():
+            g = set(gathered.get(kind, set()))
+            if kind == "Dense":
+                ok = g == {"weights", "bias"} and gathered.get("Dense-nobias", set()) == {"weights"}
+            else:
+                ok = g == set(fields)
+            note("gathered:" + kind, ok, "%s: gathered %s" % (kind, sorted(g)))
+        note("count", cnt_ok and CNT is not None, "the member count is not raised by exactly 1.0 per gathered member")
+        # ---- start from the first member, fold the rest
+        mid = effs[kg + 1:kw]
+        rms = [e for e in mid if e[0] == "mut" and e[1].endswith("::remove") and e[3] == (("lit", "0"),)]
+        rm_names = sorted(e[2][1] for e in rms if e[2][0] == "local")
+        empty_b = None
+        for (t, pol) in y.pc:
+            ie = e6.is_call(t, "is_empty", 1)
+            if ie and e6.root_name(ie[0]) == BL:
+                empty_b = pol
+        want_rm = sorted([WL] + ([BL] if (empty_b is False and BL) else []))
+        note("first", rm_names == want_rm, "combined value starts from %s (expected the first entry of %s)" % (rm_names, want_rm))
+        folds = [e for e in mid if e[0] == "loop"]
+        muts = [e for e in mid if e[0] == "mut" and e not in rms]
+        okv = True
+        objs = set()
+        for e in folds:
+            src = e6.root_name(e[2])
+            fp = paths_of(e)
+            el = ("elem", e[2], e[1])
+            if len(fp) != 1 or fp[0].pc or fp[0].exit is not None or len(fp[0].eff) != 1:
+                okv = False
+                continue
+            f0 = fp[0].eff[0]
+            if not (f0[0] == "mut" and f0[1] == "tensor::Tensor::" + PRIM.get(V, "?") and f0[3] == (el,) and src in (WL, BL)
+                    and e6.find_terms(e[2], lambda u_: u_[0] == "upd" and "::remove@" in u_[2])):
+                okv = False
+                continue
+            objs.add("weights" if src == WL else "biases")
+        divs = [e for e in muts if e[1] == "tensor::Tensor::div_scalar_inplace"]
+        other = [e for e in muts if e not in divs]
+        if V == "Mean":
+            okd = len(divs) == len(folds) and all(len(e[3]) == 1 and isinstance(e[3][0], tuple) and e[3][0][0] == "loopout" and e[3][0][1] == CNT and e[3][0][3] in (("lit", "0.0"), ("lit", "0."))
+                                                 for e in divs)
+            okv = okv and okd
+        else:
+            okv = okv and not divs
+        okv = okv and not other
+        want_objs = {"weights"} | ({"biases"} if empty_b is False else set())
+        seen_v.setdefault(V, []).append((okv and objs == want_objs, "%s: folds over %s with %s%s" % (V, sorted(objs), PRIM.get(V), " then /count" if V == "Mean" else "")))
+        note("both:" + V, objs == want_objs, "%s combines %s (gathered: %s)" % (V, sorted(objs), sorted(want_objs)))
+        # ---- write back
+        wel = ("elem", W[2], W[1])
+        written = {}
+        uniform = {}
+        widx_ok = True
+        for z in paths_of(W):
+            if z.exit is not None and z.exit[0] == "panic":
+                continue
+            vs = {e6.strip_upd(selfish(k_)): v_ for k_, v_ in e6.variant_of(z).items()}
+            member = ("idx", LAYERS, selfish(wel))
+            member_d = ("idx", LAYERS, ("un", "Deref", selfish(wel)))
+            kind = (vs.get(member) or vs.get(member_d) or "").split("::")[-1]
+            sets = [e for e in z.eff if e[0] == "set"]
+            if kind not in PARAM_FIELDS:
+                tested = any(isinstance(t, tuple) and t[0] == "is" and e6.strip_upd(selfish(t[1])) in (member, member_d) for (t, pol) in z.pc)
+                if not tested:
+                    widx_ok = False
+                if sets:
+                    written.setdefault(kind or "?", set()).add("?")
+                continue
+            hasb = None
+            for k_, v_ in vs.items():
+                if isinstance(k_, tuple) and k_[0] == "field" and k_[2] == "bias":
+                    hasb = v_
+            got = set()
+            same = True
+            for e in sets:
+                pl, v_ = e[1], e[2]
+                if e6.contains(v_, wel):
+                    same = False
+                if isinstance(pl, tuple) and pl[0] == "field" and pl[2] in ("weights", "kernels"):
+                    inner = e6.is_call(v_, "unnested", 1)
+                    src_v = inner[0] if (inner and pl[2] == "kernels") else v_
+                    if e6.find_terms(src_v, lambda u_: u_[0] in ("loopout", "upd", "call")) and (e6.root_name(src_v) not in (None, BL)) and (pl[2] == "weights" or inner):
+                        got.add(pl[2])
+                    else:
+                        got.add("?" + pl[2])
+                elif hasb == "Option::Some" and empty_b is not False:
+                    got.add("bias")       # (a member with a bias while no bias was gathered: not a reachable combination; judged on the other paths)
+                elif hasb == "Option::Some" and (e6.contains(v_, ("local", BL)) or e6.root_name(v_) == BL or e6.find_terms(v_, lambda u_: u_[0] == "loopout" and u_[1] == BL)
+                                                 or e6.find_terms(v_, lambda u_: u_[0] == "call" and u_[1].endswith("::remove") and e6.root_name(u_[2][0]) == BL)):
+                    got.add("bias")
+                else:
+                    got.add("?" + e6.show(pl, 2)[:20])
+            key = kind if not (kind == "Dense" and hasb != "Option::Some") else "Dense-nobias"
+            written.setdefault(key, set()).update(got)
+            uniform[kind] = uniform.get(kind, True) and same
+        note("write-index", widx_ok and bool(written), "the write-back loop does not dispatch on self.layers[<group entry>]")
+        for kind, fields in PARAM_FIELDS.items():
+            w_ = set(written.get(kind, set()))
+            if kind == "Dense":
+                ok = w_ == {"weights", "bias"} and written.get("Dense-nobias", set()) == {"weights"}
+            else:
+                ok = w_ == set(fields)
+            note("written:" + kind, ok, "%s: written back %s" % (kind, sorted(w_)))
+            note("uniform:" + kind, uniform.get(kind, False), "%s: the written value depends on the member" % kind)
+        note("order", kg < min([k for k, e in enumerate(effs) if e in rms] or [10 ** 6]) and all(kg < k < kw for k, e in enumerate(effs) if e in folds or e in muts), "gather, combine, write back")
+
+    def verdict(key):
+        r_ = res.get(key, [])
+        return bool(r_) and all(x[0] for x in r_), next((x[1] for x in r_ if not x[0]), "")
+    for rule, key, inst, tag, what in (
+            ("R10.2", "gather-walk", "gather:every-member", "gather-walk", "for idx in couple.iter()"),
+            ("R10.2", "write-walk", "write-back:every-member", "write-back-walk", "for idx in couple.iter()"),
+            ("R10.2", "gather-index", "gather:indexes-member", "gather-scrutinee", "match &self.layers[*idx]"),
+            ("R10.2", "write-index", "write-back:indexes-member", "write-back-scrutinee", "match &mut self.layers[*i]"),
+            ("R10.2", "order", "order", "coupling-order", "gather, combine, write back"),
+            ("R10.2", "first", "starts-from-first-member", "accumulator-start", "weight = weights.remove(0)"),
+            ("R10.3", "dispatch", "dispatch-on-accumulation", "dispatch-field", "match self.accumulation"),
+            ("R10.3", "count", "count-per-member", "count-update", "count += 1.0 per gathered member")):
+        ok, why = verdict(key)
+        ctx.check(rule, inst, ok, tag + ":" + short(why, 70), where, what, "Feedback::update: %s" % why)
+    for kind in PARAM_FIELDS:
+        for key, inst, tag in (("gathered:" + kind, "gathered:" + kind, "gathered-fields:" + kind), ("written:" + kind, "written-back:" + kind, "written-fields:" + kind),
+                               ("uniform:" + kind, "uniform-value:" + kind, "written-value:" + kind)):
+            ok, why = verdict(key)
+            ctx.check("R10.2", inst, ok, tag + ":" + short(why, 60), where, "%s: its parameter fields are gathered, combined and written back to every member" % kind,
+                      "after the update %s: the unrolled copies drift apart" % why)
+    acc = c.adts.get("feedback::Accumulation")
+    for v_ in [x_["name"] for x_ in acc["variants"]]:
+        r_ = seen_v.get(v_)
+        if v_ == "Overwrite":
+            pan = any(y.exit is not None and y.exit[0] == "panic" and any(pol and isinstance(t, tuple) and t[0] == "is" and t[2].endswith("::Overwrite") for (t, pol) in y.pc) for y in ys)
+            ctx.check("R10.3", "coupling:Overwrite", pan and not r_, "accumulation-variant-panics" if not pan else "overwrite", where, "Overwrite is explicitly unimplemented (panics): outside the supported set")
+            continue
+        if not r_:
+            ctx.bad("R10.3", "coupling:" + v_, "accumulation-variant-not-handled", where, "no way through the coupling step handles %s" % v_)
+            continue
+        bad = [d for (ok, d) in r_ if not ok]
+        ctx.check("R10.3", "coupling:" + v_, not bad, "wrong-primitive:" + short("; ".join(bad), 70), where, "%s folds the gathered values with its own primitive" % v_, "; ".join(bad))
+        ok, why = verdict("both:" + v_)
+        ctx.check("R10.3", "weights-and-biases:" + v_, ok, "combined-objects:%s:%s" % (v_, short(why, 50)), where, "weights and biases both combined")
 
 
 def r4(ctx):
